@@ -200,13 +200,22 @@ def run(ctx: Ctx):
     from sa.inline import Inliner as _InlO9
     inl9 = _InlO9(upd.node, rd)
     tests9 = []
+    from sa.inteval import NotEvaluable as _NE9, int_eval as _ie9
     for n_ in own_nodes(upd.node):
         if isinstance(n_, ast.Compare) and len(n_.ops) == 1 and isinstance(n_.ops[0], (ast.Eq, ast.NotEq)):
-            for a_, b_ in ((n_.left, n_.comparators[0]), (n_.comparators[0], n_.left)):
-                if u(inl9.expand(b_)).replace(" ", "") in ("epoch-1", "-1+epoch"):
-                    k_ = _best_kind(a_, rd, prov)
-                    if k_ is not None:
-                        tests9.append((n_, k_))
+            # `<best> == epoch - 1`, `<best> + 1 == epoch`, `epoch - <best> == 1` ...: a comparison of a best-epoch name B with `epoch`
+            # that holds exactly when B == epoch - 1 (decided on a grid), whichever side carries the offset
+            bests = [x for x in ast.walk(n_) if isinstance(x, ast.Name) and _best_kind(x, rd, prov) is not None]
+            if len(bests) != 1 or not any(isinstance(x, ast.Name) and x.id == "epoch" for x in ast.walk(inl9.expand(n_))):
+                continue
+            try:
+                ex_ = inl9.__class__(upd.node, rd, keep={bests[0].id, "epoch"}).expand(n_)
+                hold = {(b_, e_): bool(_ie9(ex_, {bests[0].id: b_, "epoch": e_})) for b_ in range(0, 6) for e_ in range(1, 6)}
+            except _NE9:
+                continue
+            eq = isinstance(n_.ops[0], ast.Eq)
+            if all(v_ == ((b_ == e_ - 1) == eq) for (b_, e_), v_ in hold.items()):
+                tests9.append((n_, _best_kind(bests[0], rd, prov)))
     col.count("previous-epoch-is-best tests", len(tests9))
     bad9 = [(n_, k_) for n_, k_ in tests9 if k_ != "cur_best"]
     col.ob("G10", "O9", f"{where}::previous-epoch-kept-iff-it-is-the-current-best", bool(tests9) and not bad9,
@@ -327,6 +336,11 @@ def _classify_collision(v: ast.AST, test: ast.AST, rd: ReachingDefs, prov: Prov)
             and v.operand.func.attr == "isdisjoint" and len(v.operand.args) == 1:
         return ("intersection", u(test))
     if isinstance(v, ast.Call) and isinstance(v.func, ast.Attribute) and v.func.attr == "intersection" and len(v.args) == 1:
+        return ("intersection", u(test))
+    # any(p in A for p in B): a non-empty intersection, element by element
+    if isinstance(v, ast.Call) and call_name(v) == "any" and len(v.args) == 1 and isinstance(v.args[0], (ast.GeneratorExp, ast.ListComp)) \
+            and isinstance(v.args[0].elt, ast.Compare) and len(v.args[0].elt.ops) == 1 and isinstance(v.args[0].elt.ops[0], ast.In) \
+            and len(v.args[0].generators) == 1 and u(v.args[0].elt.left) == u(v.args[0].generators[0].target):
         return ("intersection", u(test))
     if all(isinstance(c, ast.Call) and call_name(c) == "os.path.exists"
            for c in (v.values if isinstance(v, ast.BoolOp) and isinstance(v.op, ast.Or) else [None])):
@@ -585,16 +599,28 @@ def _o5(ctx, rel):
     col.count("ckpt_saver_paths", len(ps))
     # the saved pairs: (model.state_dict(), model path), (optimizer.state_dict(), optimizer path)
     pairs = 0
+    from sa.inline import Inliner as _InlP
+    inl_p = _InlP(f.node)
+    cands = []
     for n in own_nodes(f.node):
-        if isinstance(n, ast.Tuple) and len(n.elts) == 2 and isinstance(n.elts[0], ast.Call) \
-                and isinstance(n.elts[0].func, ast.Attribute) and n.elts[0].func.attr == "state_dict":
-            who = u(n.elts[0].func.value)
-            pth = _self_call(n.elts[1], (MODEL_PATH_FN, OPTIM_PATH_FN))
+        if isinstance(n, ast.Tuple) and len(n.elts) == 2:
+            cands.append((n, n.elts[0], n.elts[1]))
+        # `zip((state_a, state_b), (path_a, path_b))`: paired position by position
+        if isinstance(n, ast.Call) and call_name(n) == "zip" and len(n.args) == 2:
+            a_, b_ = (inl_p.expand(x) for x in n.args)
+            if isinstance(a_, (ast.Tuple, ast.List)) and isinstance(b_, (ast.Tuple, ast.List)) and len(a_.elts) == len(b_.elts):
+                for x_, y_ in zip(a_.elts, b_.elts):
+                    cands.append((n, x_, y_))
+    for n, e0, e1 in cands:
+        e0, e1 = inl_p.expand(e0), inl_p.expand(e1)
+        if isinstance(e0, ast.Call) and isinstance(e0.func, ast.Attribute) and e0.func.attr == "state_dict":
+            who = u(e0.func.value)
+            pth = _self_call(e1, (MODEL_PATH_FN, OPTIM_PATH_FN))
             if pth:
                 pairs += 1
                 ok = (who == "model") == (pth == MODEL_PATH_FN)
                 col.ob("G10", "O8", f"{where}::pair[{who}]", ok,
-                       f"`{who}.state_dict()` is written to the path built by {pth}", rel, n.lineno, sample=u(n))
+                       f"`{who}.state_dict()` is written to the path built by {pth}", rel, n.lineno, sample=u(n)[:120])
     col.floor("saved_pairs", pairs, 2)
 
 
@@ -641,24 +667,43 @@ def history_header_rule(ctx, clause: str, rule: str = "G10"):
     pm = parent_map(f.node)
     rows = [c for c in own_calls(f.node) if isinstance(c.func, ast.Attribute) and c.func.attr == "writerow"]
     col.floor("writerow_sites", len(rows), 2)
-    guarded = [c for c in rows if guards_of(pm, c) and isinstance(guards_of(pm, c)[-1][0], ast.Name)]
-    okh = False
-    only_exists = False
-    for c in guarded:
-        t, pol = guards_of(pm, c)[-1]
-        der = rd.derives(t)
-        names = [call_name(x) for x in der.calls()]
-        on_csv = any("state_csv_path" in u(x) for x in der.calls())
-        exists = any(n_ == "os.path.exists" for n_ in names)
-        empty = any(n_ in ("os.path.getsize", "os.stat") or n_.endswith(".tell") or n_.endswith(".st_size") for n_ in names) or \
-            any(isinstance(x, ast.Attribute) and x.attr == "st_size" for e in der.exprs for x in ast.walk(e))
-        if pol and on_csv and empty:
-            okh = True
-        elif pol and on_csv and exists:
-            only_exists = True
-    col.ob(rule, clause, f"{rel}::{CLS}.{HIST_FN}::header-iff-the-history-is-empty", okh and len(guarded) == 1,
-           "the CSV header is written only when the history file does not *exist*" if only_exists else
-           "the CSV header row is not guarded by an emptiness test of the history file", rel, f.line,
+    # as a truth table: the conjunction of the tests the header row is written under, with named flags looked through, evaluated
+    # (sa/inteval.py) in the three states of the history file - absent, present and empty, present with rows; os.path.exists /
+    # getsize / stat().st_size / tell() answer from the state. The header is due in the first two and only there.
+    from sa.inline import Inliner
+    from sa.inteval import NotEvaluable, int_eval
+    inl = Inliner(f.node, rd)
+    guarded = [c for c in rows if any(not (isinstance(t_, ast.Compare) and "rank" in u(t_)) and "state_csv_path" not in u(t_) or True for t_, _ in guards_of(pm, c))
+               and any(any(k_ in u(inl.expand(t_)) for k_ in ("exists", "getsize", "st_size", "tell")) for t_, _ in guards_of(pm, c))]
+    okh, why = False, "the CSV header row is not guarded by an emptiness test of the history file"
+    if len(guarded) == 1:
+        gs = [(inl.expand(t_), p_) for t_, p_ in guards_of(pm, guarded[0])
+              if any(k_ in u(inl.expand(t_)) for k_ in ("exists", "getsize", "st_size", "tell"))]
+        try:
+            table = {}
+            for state, (ex_, size_) in (("absent", (False, 0)), ("empty", (True, 0)), ("rows", (True, 120))):
+                def leaf(x, ex_=ex_, size_=size_):
+                    if isinstance(x, ast.Call):
+                        cn = call_name(x)
+                        if cn in ("os.path.exists", "os.path.isfile"):
+                            return ex_
+                        if cn == "os.path.getsize" or cn.endswith(".tell"):
+                            if not ex_:
+                                raise NotEvaluable("size of an absent file")
+                            return size_
+                    if isinstance(x, ast.Attribute) and x.attr == "st_size":
+                        if not ex_:
+                            raise NotEvaluable("size of an absent file")
+                        return size_
+                    return None
+                table[state] = all(bool(int_eval(t_, {"__leaf__": leaf})) == p_ for t_, p_ in gs)
+            okh = table == {"absent": True, "empty": True, "rows": False}
+            if not okh:
+                why = ("the CSV header is written only when the history file does not *exist*" if table == {"absent": True, "empty": False, "rows": False}
+                       else f"the CSV header is written in the states {table} of the history file (absent / empty / with rows); it is due exactly when the file holds nothing yet")
+        except NotEvaluable as e:
+            why = f"the test the header row is written under cannot be evaluated for an absent / empty / filled history file ({e})"
+    col.ob(rule, clause, f"{rel}::{CLS}.{HIST_FN}::header-iff-the-history-is-empty", okh and len(guarded) == 1, why, rel, f.line,
            sample="a crash after open(path, 'a') and before the first flush leaves an existing, empty file: every later update then "
                   "appends rows without a header and the next controller raises KeyError('epoch')")
 
